@@ -6,7 +6,7 @@ From Feox Require Import Model.Sched Proofs.SchedProofs.
 Import ListNotations.
 Local Open Scope N_scope.
 
-Definition core (s : shared) := (tbl s, retired s, succ s, nid s, owner s).
+Definition core (s : shared) := (tbl s, retired s, succ s, nid s, owner s, ver s).
 
 Lemma core_observe s k ts ex : core (observe s k ts ex) = core s.
 Proof. unfold observe. destruct ex; reflexivity. Qed.
@@ -86,12 +86,12 @@ Record SInv (s : shared) : Prop := {
 }.
 
 Lemma core_fields s s' : core s' = core s ->
-  tbl s' = tbl s /\ retired s' = retired s /\ succ s' = succ s /\ nid s' = nid s /\ owner s' = owner s.
+  tbl s' = tbl s /\ retired s' = retired s /\ succ s' = succ s /\ nid s' = nid s /\ owner s' = owner s /\ ver s' = ver s.
 Proof. unfold core. intros H. inversion H. repeat split; reflexivity. Qed.
 
 Lemma SInv_core s s' : core s' = core s -> SInv s -> SInv s'.
 Proof.
-  intros Hc [A B C]. destruct (core_fields _ _ Hc) as (T & R & S & N & O).
+  intros Hc [A B C]. destruct (core_fields _ _ Hc) as (T & R & S & N & O & _).
   constructor; rewrite ?T, ?S, ?N, ?O; assumption.
 Qed.
 
@@ -99,26 +99,29 @@ Qed.
 Definition oext (s s' : shared) : Prop := forall id k, aget id (owner s) = Some k -> aget id (owner s') = Some k.
 
 Lemma oext_core s s' : core s' = core s -> oext s s'.
-Proof. intros Hc id k H. destruct (core_fields _ _ Hc) as (_ & _ & _ & _ & O). rewrite O. exact H. Qed.
+Proof. intros Hc id k H. destruct (core_fields _ _ Hc) as (_ & _ & _ & _ & O & _). rewrite O. exact H. Qed.
 
 Lemma publish_fields s k v ts ex :
   tbl (publish_new s k v ts ex) = aset k (mkgen (nid s) v ts) (tbl s) /\
   retired (publish_new s k v ts ex) = retired s /\ succ (publish_new s k v ts ex) = succ s /\
-  nid (publish_new s k v ts ex) = nid s + 1 /\ owner (publish_new s k v ts ex) = aset (nid s) k (owner s).
+  nid (publish_new s k v ts ex) = nid s + 1 /\ owner (publish_new s k v ts ex) = aset (nid s) k (owner s) /\
+  ver (publish_new s k v ts ex) = aset k (nget k (ver s) + 1) (ver s).
 Proof. unfold publish_new, observe. destruct ex; repeat split; reflexivity. Qed.
 
 Lemma replace_fields s k e v ts ex :
   tbl (publish_replace s k e v ts ex) = aset k (mkgen (nid s) v ts) (tbl s) /\
   retired (publish_replace s k e v ts ex) = retired s /\
   succ (publish_replace s k e v ts ex) = aset (g_id e) (nid s) (succ s) /\
-  nid (publish_replace s k e v ts ex) = nid s + 1 /\ owner (publish_replace s k e v ts ex) = aset (nid s) k (owner s).
+  nid (publish_replace s k e v ts ex) = nid s + 1 /\ owner (publish_replace s k e v ts ex) = aset (nid s) k (owner s) /\
+  ver (publish_replace s k e v ts ex) = aset k (nget k (ver s) + 1) (ver s).
 Proof. unfold publish_replace, observe. destruct ex; repeat split; reflexivity. Qed.
 
 Lemma retire_fields s k e ts ex :
   tbl (retire_remove s k e ts ex) = adel k (tbl s) /\
   retired (retire_remove s k e ts ex) = aset (g_id e) ts (retired s) /\
   succ (retire_remove s k e ts ex) = succ s /\ nid (retire_remove s k e ts ex) = nid s /\
-  owner (retire_remove s k e ts ex) = owner s.
+  owner (retire_remove s k e ts ex) = owner s /\
+  ver (retire_remove s k e ts ex) = aset k (nget k (ver s) + 1) (ver s).
 Proof. unfold retire_remove, observe. destruct ex; repeat split; reflexivity. Qed.
 
 Lemma owner_fresh_other s id k0 id0 :
@@ -130,7 +133,7 @@ Qed.
 
 Lemma SInv_new s1 k v ts ex : SInv s1 -> SInv (publish_new s1 k v ts ex).
 Proof.
-  intros [A B C]. destruct (publish_fields s1 k v ts ex) as (T & R & S & N & O).
+  intros [A B C]. destruct (publish_fields s1 k v ts ex) as (T & R & S & N & O & _).
   constructor; rewrite ?T, ?S, ?N, ?O.
   - intros k' g. destruct (N.eq_dec k' k) as [->|Hne].
     + rewrite aget_aset_same. intros H. inversion H. cbn. rewrite aget_aset_same. split; [reflexivity | lia].
@@ -144,7 +147,7 @@ Qed.
 
 Lemma SInv_replace s1 k e v ts ex : SInv s1 -> aget k (tbl s1) = Some e -> SInv (publish_replace s1 k e v ts ex).
 Proof.
-  intros [A B C] He. destruct (replace_fields s1 k e v ts ex) as (T & R & S & N & O).
+  intros [A B C] He. destruct (replace_fields s1 k e v ts ex) as (T & R & S & N & O & _).
   destruct (A _ _ He) as [Hoe Hle].
   constructor; rewrite ?T, ?S, ?N, ?O.
   - intros k' g. destruct (N.eq_dec k' k) as [->|Hne].
@@ -162,7 +165,7 @@ Qed.
 
 Lemma SInv_retire s k e ts ex : SInv s -> SInv (retire_remove s k e ts ex).
 Proof.
-  intros [A B C]. destruct (retire_fields s k e ts ex) as (T & R & S & N & O).
+  intros [A B C]. destruct (retire_fields s k e ts ex) as (T & R & S & N & O & _).
   constructor; rewrite ?T, ?S, ?N, ?O; try assumption.
   intros k' g H. apply aget_adel_some in H. exact (A _ _ (proj1 H)).
 Qed.
@@ -172,17 +175,17 @@ Proof.
   intros Hs HI. destruct Hs as [s' c Hc _ | s1 e v ts ex r Hc He | s1 v ts ex r Hc Hn | e ts ex k t Ho He].
   - split; [exact (SInv_core _ _ Hc HI) | exact (oext_core _ _ Hc)].
   - assert (HI1 : SInv s1) by exact (SInv_core _ _ Hc HI).
-    destruct (core_fields _ _ Hc) as (T & _ & _ & N & O).
+    destruct (core_fields _ _ Hc) as (T & _ & _ & N & O & _).
     split; [apply SInv_replace; [exact HI1 | rewrite T; exact He]|].
-    intros id k0 H. destruct (replace_fields s1 (key_of o) e v ts ex) as (_ & _ & _ & _ & O').
+    intros id k0 H. destruct (replace_fields s1 (key_of o) e v ts ex) as (_ & _ & _ & _ & O' & _).
     rewrite O'. apply owner_fresh_other; [exact (si_own _ HI1) | rewrite O; exact H].
   - assert (HI1 : SInv s1) by exact (SInv_core _ _ Hc HI).
-    destruct (core_fields _ _ Hc) as (T & _ & _ & N & O).
+    destruct (core_fields _ _ Hc) as (T & _ & _ & N & O & _).
     split; [apply SInv_new; exact HI1|].
-    intros id k0 H. destruct (publish_fields s1 (key_of o) v ts ex) as (_ & _ & _ & _ & O').
+    intros id k0 H. destruct (publish_fields s1 (key_of o) v ts ex) as (_ & _ & _ & _ & O' & _).
     rewrite O'. apply owner_fresh_other; [exact (si_own _ HI1) | rewrite O; exact H].
   - split; [apply SInv_retire; exact HI|].
-    intros id k0 H. destruct (retire_fields s k e ts ex) as (_ & _ & _ & _ & O'). rewrite O'. exact H.
+    intros id k0 H. destruct (retire_fields s k e ts ex) as (_ & _ & _ & _ & O' & _). rewrite O'. exact H.
 Qed.
 
 (* ---- the retirement timestamp of a held generation comes from a retired generation of the same key ---- *)
@@ -232,9 +235,9 @@ Proof.
 Qed.
 
 Lemma owner_resolve s k tso ts ex s' : resolve s k tso = (ts, ex, s') -> owner s' = owner s.
-Proof. intros H. destruct (core_fields _ _ (core_resolve _ _ _ _ _ _ H)) as (_ & _ & _ & _ & O). exact O. Qed.
+Proof. intros H. destruct (core_fields _ _ (core_resolve _ _ _ _ _ _ H)) as (_ & _ & _ & _ & O & _). exact O. Qed.
 Lemma owner_draw s k t s1 : draw s k = (t, s1) -> owner s1 = owner s.
-Proof. intros H. destruct (core_fields _ _ (draw_core _ _ _ _ H)) as (_ & _ & _ & _ & O). exact O. Qed.
+Proof. intros H. destruct (core_fields _ _ (draw_core _ _ _ _ H)) as (_ & _ & _ & _ & O & _). exact O. Qed.
 
 Lemma opstep_pc_own s o p s' p' c :
   SInv s -> pc_own s o p -> opstep s o p = (s', inl p', c) -> pc_own s' o p'.
@@ -320,7 +323,7 @@ Definition explicit_pos (o : op) : Prop := match op_ts o with Some t => 0 < t | 
 
 Definition pc_pos (p : pc) : Prop :=
   match p with
-  | PUTop ts _ | PUGuard ts _ _ | PUIns ts _ | PDGuard ts _ | PCGuard ts _ _
+  | PUTop ts _ | PUGuard ts _ _ | PUIns ts _ | PDGuard ts _ | PCGuard ts _ _ _
   | PNCreate _ ts _ | PNGuard _ _ _ ts _ | PPTop ts _ _ | PPGuard ts _ _ _ _ => 0 < ts
   | _ => True
   end.
@@ -431,18 +434,18 @@ Proof.
               In (j, c') (match c with Some c0 => w_log w ++ [(i, c0)] | None => w_log w end)).
     { intros j c' Hin. destruct c; [apply in_or_app; left; exact Hin | exact Hin]. }
     destruct Hsh as [s' c Hc _ | s1 e v ts ex rr Hc He | s1 v ts ex rr Hc Hn | e ts ex k t Ho He].
-    + destruct (core_fields _ _ Hc) as (_ & R & _ & _ & O). rewrite R in Hid.
+    + destruct (core_fields _ _ Hc) as (_ & R & _ & _ & O & _). rewrite R in Hid.
       destruct (Hret _ _ Hid) as [k [Hk [j [c' [Hin Ha]]]]]. exists k. split; [exact (Hext _ _ Hk)|].
       exists j, c'. split; [exact (Hgrow _ _ Hin) | exact Ha].
-    + destruct (replace_fields s1 (key_of o) e v ts ex) as (_ & R & _ & _ & _). rewrite R in Hid.
-      destruct (core_fields _ _ Hc) as (_ & R1 & _ & _ & _). rewrite R1 in Hid.
+    + destruct (replace_fields s1 (key_of o) e v ts ex) as (_ & R & _ & _ & _ & _). rewrite R in Hid.
+      destruct (core_fields _ _ Hc) as (_ & R1 & _ & _ & _ & _). rewrite R1 in Hid.
       destruct (Hret _ _ Hid) as [k [Hk [j [c' [Hin Ha]]]]]. exists k. split; [exact (Hext _ _ Hk)|].
       exists j, c'. split; [exact (Hgrow _ _ Hin) | exact Ha].
-    + destruct (publish_fields s1 (key_of o) v ts ex) as (_ & R & _ & _ & _). rewrite R in Hid.
-      destruct (core_fields _ _ Hc) as (_ & R1 & _ & _ & _). rewrite R1 in Hid.
+    + destruct (publish_fields s1 (key_of o) v ts ex) as (_ & R & _ & _ & _ & _). rewrite R in Hid.
+      destruct (core_fields _ _ Hc) as (_ & R1 & _ & _ & _ & _). rewrite R1 in Hid.
       destruct (Hret _ _ Hid) as [k [Hk [j [c' [Hin Ha]]]]]. exists k. split; [exact (Hext _ _ Hk)|].
       exists j, c'. split; [exact (Hgrow _ _ Hin) | exact Ha].
-    + destruct (retire_fields (w_sh w) k e ts ex) as (_ & R & _ & _ & O). rewrite R in Hid.
+    + destruct (retire_fields (w_sh w) k e ts ex) as (_ & R & _ & _ & O & _). rewrite R in Hid.
       destruct (N.eq_dec id (g_id e)) as [->|Hne].
       * rewrite aget_aset_same in Hid. inversion Hid. subst r0.
         exists k. split; [rewrite O; exact (proj1 (si_tbl _ HS _ _ He))|].
@@ -491,4 +494,153 @@ Theorem older_refusals_are_justified shards progs sched fuel :
   justified_log (w_log (finish fuel (run (init_world shards progs) sched))).
 Proof.
   intros Hp. apply j_log. apply finish_JInv. apply run_JInv. apply init_JInv. exact Hp.
+Qed.
+
+(* ---- the second permitted deviation: a compare-and-swap answered "no swap" although the value
+   it would find now equals the expected one.  It happens only when the key was modified between
+   the call's read and its guarded re-validation: the key's modification counter (ghost `ver`,
+   bumped by every accepted insert / replace / delete of the key) moved. ---- *)
+Definition kver (s : shared) (k : N) : N := nget k (ver s).
+
+Lemma nget_aset_same k v l : nget k (aset k v l) = v.
+Proof. unfold nget. rewrite aget_aset_same. reflexivity. Qed.
+Lemma nget_aset_other k k' v l : k' <> k -> nget k' (aset k v l) = nget k' l.
+Proof. intros H. unfold nget. rewrite aget_aset_other by exact H. reflexivity. Qed.
+
+(* one step either leaves every table entry and counter alone, or is an accepted modification of
+   its own key: that key's counter goes up by one, a commit that is not a refusal is logged, and
+   nothing about the other keys changes *)
+Lemma opstep_tblver s o p s' r c : opstep s o p = (s', r, c) ->
+  (tbl s' = tbl s /\ ver s' = ver s) \/
+  ((forall k, k <> key_of o -> aget k (tbl s') = aget k (tbl s) /\ kver s' k = kver s k) /\
+   kver s' (key_of o) = kver s (key_of o) + 1 /\
+   exists cm, c = Some cm /\ c_dev cm = false /\ c_op cm = o).
+Proof.
+  intros H. pose proof (opstep_commit_op s o p s' r) as Hop.
+  destruct (opstep_shape _ _ _ _ _ _ H) as [s' c Hc _ | s1 e v ts ex rr Hc He | s1 v ts ex rr Hc Hn | e ts ex k t Ho He].
+  - left. destruct (core_fields _ _ Hc) as (T & _ & _ & _ & _ & V). split; assumption.
+  - right. destruct (core_fields _ _ Hc) as (T & _ & _ & _ & _ & V).
+    destruct (replace_fields s1 (key_of o) e v ts ex) as (T' & _ & _ & _ & _ & V'). unfold kver.
+    split; [|split].
+    + intros k Hk. rewrite T', V', T, V. rewrite aget_aset_other by exact Hk. rewrite nget_aset_other by exact Hk. split; reflexivity.
+    + rewrite V', V. apply nget_aset_same.
+    + eexists. split; [reflexivity|]. split; [reflexivity | reflexivity].
+  - right. destruct (core_fields _ _ Hc) as (T & _ & _ & _ & _ & V).
+    destruct (publish_fields s1 (key_of o) v ts ex) as (T' & _ & _ & _ & _ & V'). unfold kver.
+    split; [|split].
+    + intros k Hk. rewrite T', V', T, V. rewrite aget_aset_other by exact Hk. rewrite nget_aset_other by exact Hk. split; reflexivity.
+    + rewrite V', V. apply nget_aset_same.
+    + eexists. split; [reflexivity|]. split; [reflexivity | reflexivity].
+  - right. subst o. cbn [key_of].
+    destruct (retire_fields s k e ts ex) as (T' & _ & _ & _ & _ & V'). unfold kver.
+    split; [|split].
+    + intros k0 Hk. rewrite T', V'. rewrite aget_adel_other by exact Hk. rewrite nget_aset_other by exact Hk. split; reflexivity.
+    + rewrite V'. apply nget_aset_same.
+    + eexists. split; [reflexivity|]. split; [reflexivity | reflexivity].
+Qed.
+
+(* a parked compare-and-swap remembers the counter it saw; while the counter has not moved the
+   table still holds the generation it read *)
+Definition pc_cas (s : shared) (o : op) (p : pc) : Prop :=
+  match o, p with
+  | OCas k _ _ _, PCGuard _ _ g v0 => v0 <= kver s k /\ (kver s k = v0 -> aget k (tbl s) = Some g)
+  | _, _ => True
+  end.
+
+Lemma pc_cas_start s o : pc_cas s o PStart.
+Proof. destruct o; exact I. Qed.
+
+Lemma opstep_pc_cas s o p s' p' c : pc_cas s o p -> opstep s o p = (s', inl p', c) -> pc_cas s' o p'.
+Proof.
+  intros Hpc H. unfold opstep, done, goto in H.
+  destruct o as [k|k v tso|k tso|k e n tso|k d tso|k v|k pj tso]; destruct p; brk H; inversion H; subst; clear H;
+    cbn [pc_cas]; try exact I.
+  all: match goal with
+       | Hr : resolve ?s0 ?k ?tso = (_, _, ?s1), Hg : aget ?k (tbl ?s0) = Some ?g |- _ =>
+           destruct (core_fields _ _ (core_resolve _ _ _ _ _ _ Hr)) as (T & _ & _ & _ & _ & V);
+           unfold kver; rewrite V, T; split; [apply N.le_refl | intros _; exact Hg]
+       end.
+Qed.
+
+Lemma pc_cas_other s o p s' o2 p2 r2 c2 :
+  pc_cas s o p -> opstep s o2 p2 = (s', r2, c2) -> pc_cas s' o p.
+Proof.
+  intros Hpc H. destruct o as [k|k v tso|k tso|k e n tso|k d tso|k v|k pj tso]; destruct p; cbn [pc_cas] in *; try exact I.
+  destruct Hpc as [Hle Hsame].
+  destruct (opstep_tblver _ _ _ _ _ _ H) as [[T V]|[Hoth [Hinc _]]].
+  - unfold kver in *. rewrite V, T. split; assumption.
+  - destruct (N.eq_dec k (key_of o2)) as [->|Hne].
+    + split; [lia | intros Heq; lia].
+    + destruct (Hoth k Hne) as [Ht Hv]. rewrite Hv, Ht. split; assumption.
+Qed.
+
+(* the step-level statement *)
+Lemma cas_refusal_means_modified s k e n tso ts ex g v0 s' r cm :
+  table_ok s -> pc_ok s (OCas k e n tso) (PCGuard ts ex g v0) -> pc_cas s (OCas k e n tso) (PCGuard ts ex g v0) ->
+  opstep s (OCas k e n tso) (PCGuard ts ex g v0) = (s', r, Some cm) -> c_dev cm = true ->
+  v0 < kver s k.
+Proof.
+  intros Hok [Hheld _] [Hle Hsame] H Hdev. cbn [opstep] in H. unfold done in H.
+  destruct (aget k (tbl s)) as [c0|] eqn:Hg.
+  - destruct (negb (same c0 g)) eqn:Hs.
+    + destruct (N.eq_dec (kver s k) v0) as [Heq|Hne]; [|lia].
+      specialize (Hsame Heq). inversion Hsame. subst c0.
+      unfold same in Hs. rewrite N.eqb_refl in Hs. discriminate.
+    + destruct (ts <=? g_ts c0); inversion H; subst; cbn in Hdev; discriminate.
+  - inversion H. subst. cbn in Hdev. discriminate.
+Qed.
+
+(* whole executions: every thread parked in a compare-and-swap keeps the invariant *)
+Definition CInvW (w : world) : Prop :=
+  table_ok (w_sh w) /\
+  forall i th, nth_error (w_th w) i = Some th ->
+    match t_ops th with o :: _ => pc_ok (w_sh w) o (t_pc th) /\ pc_cas (w_sh w) o (t_pc th) | [] => True end.
+
+Lemma tstep_CInvW w i : CInvW w -> CInvW (tstep w i).
+Proof.
+  intros [Htab Hth]. unfold tstep.
+  destruct (nth_error (w_th w) i) as [th|] eqn:Hi; [|split; assumption].
+  destruct (t_ops th) as [|o rest] eqn:Hops; [split; assumption|].
+  destruct (opstep (w_sh w) o (t_pc th)) as [[s' r] c] eqn:Hstep.
+  pose proof (Hth i th Hi) as Hcur. rewrite Hops in Hcur. destruct Hcur as [Hpc Hcas].
+  destruct (opstep_sim _ _ _ _ _ _ Htab Hpc Hstep) as [Htab' [Hext [_ Hc]]].
+  split; cbn [w_sh w_th]; [exact Htab'|].
+  intros j thj Hj. destruct (Nat.eq_dec i j) as [<-|Hne].
+  - rewrite (nth_error_set_nth_same _ _ _ _ Hi) in Hj. inversion Hj. subst thj. clear Hj.
+    destruct r as [p'|rs]; cbn [t_ops t_pc].
+    + destruct c as [cm|]; [destruct Hc as [Hr _]; discriminate|].
+      destruct Hc as [_ [p0 [Hr Hp0]]]. inversion Hr. subst p0.
+      split; [exact Hp0 | exact (opstep_pc_cas _ _ _ _ _ _ Hcas Hstep)].
+    + destruct rest as [|o2 rest2]; [exact I|]. split; [apply pc_ok_start | apply pc_cas_start].
+  - rewrite (nth_error_set_nth_other _ _ _ _ Hne) in Hj. pose proof (Hth j thj Hj) as H.
+    destruct (t_ops thj) as [|oj restj]; [exact I|]. destruct H as [H1 H2].
+    split; [exact (pc_ok_ext _ _ _ _ H1 Hext) | exact (pc_cas_other _ _ _ _ _ _ _ _ H2 Hstep)].
+Qed.
+
+Lemma run_CInvW sched : forall w, CInvW w -> CInvW (run w sched).
+Proof. unfold run. induction sched as [|i t IH]; intros w H; cbn; [exact H | apply IH; apply tstep_CInvW; exact H]. Qed.
+
+Lemma init_CInvW shards progs : CInvW (init_world shards progs).
+Proof.
+  split; cbn.
+  - split; intros; discriminate.
+  - intros i th H. rewrite nth_error_map in H. destruct (nth_error progs i) as [prog|]; [|discriminate].
+    inversion H. cbn. destruct prog; [exact I | split; [apply pc_ok_start | apply pc_cas_start]].
+Qed.
+
+(* MAIN: in every execution, when a compare-and-swap is answered with the flagged "no swap", the
+   key has been modified since that call read it: its modification counter is above the value the
+   call saw at its read (every unit of that counter is an accepted, logged modification of the key:
+   opstep_tblver) *)
+Theorem cas_refusals_are_justified shards progs sched i :
+  let w := run (init_world shards progs) sched in
+  forall th k e n tso rest ts ex g v0 s' r cm,
+  nth_error (w_th w) i = Some th -> t_ops th = OCas k e n tso :: rest -> t_pc th = PCGuard ts ex g v0 ->
+  opstep (w_sh w) (OCas k e n tso) (PCGuard ts ex g v0) = (s', r, Some cm) -> c_dev cm = true ->
+  v0 < kver (w_sh w) k.
+Proof.
+  intros w th k e n tso rest ts ex g v0 s' r cm Hi Hops Hpcq Hstep Hdev.
+  destruct (run_CInvW sched _ (init_CInvW shards progs)) as [Htab Hth]. fold w in Htab, Hth.
+  pose proof (Hth i th Hi) as H. rewrite Hops, Hpcq in H. destruct H as [H1 H2].
+  exact (cas_refusal_means_modified _ _ _ _ _ _ _ _ _ _ _ _ Htab H1 H2 Hstep Hdev).
 Qed.
